@@ -394,11 +394,11 @@ Proof.
 Qed.
 
 (* L = 14 + 255: maxStreamUnitWrite is 0; an ordered Write cuts an empty frame, obfuscate refuses
-   it ("payload cannot be empty") after the sequence counter has been advanced *)
+   it ("payload cannot be empty") and the sequence counter stays where it was *)
 Theorem session_limit_equal_overhead : forall (L : Z) m key sid seq input rand,
   L = mux_frameHeaderLength + mux_maxExtraLen -> input <> [] ->
   stream_write (make_session L) false (payload_cipher m key) key sid seq input rand
-    = mkRes [] 0 (next_seq seq) EndObfsError /\
+    = mkRes [] 0 seq EndObfsError /\
   stream_write (make_session L) true (payload_cipher m key) key sid seq input rand
     = mkRes [] 0 seq EndShortBuffer.
 Proof.
@@ -651,7 +651,7 @@ Example session_small_limits :
   let c := payload_cipher Plain ex_key in
   let rnd : draws := fun _ => (0%N, nrange 7 8) in
   stream_write (make_session 268) false c ex_key 1 5 [1; 2]%N rnd = mkRes [] 0 5%N EndPanic /\
-  stream_write (make_session 269) false c ex_key 1 5 [1; 2]%N rnd = mkRes [] 0 6%N EndObfsError /\
+  stream_write (make_session 269) false c ex_key 1 5 [1; 2]%N rnd = mkRes [] 0 5%N EndObfsError /\
   map zlen (r_wire (stream_write (make_session 270) false c ex_key 1 5 [1; 2]%N rnd)) = [23; 23] /\
   r_end (stream_write (make_session 270) true c ex_key 1 5 [1; 2]%N rnd) = EndShortBuffer /\
   (* a closing notice of 200 filler bytes does not fit a 200-byte buffer: the payload slice panics;
